@@ -197,6 +197,11 @@ def one_recording(res, sp):
                     res.disagree("final file after kill -9 differs in content from the snapshot", f, None, None)
         res.count("kills_compared_with_snapshots")
         shutil.rmtree(kd, True)
+    # ---- restart after a kill inside a data file: a new writer whose first write falls into the period of the
+    #      leftover tmp file (then closed; or: then a write into a later free period, then closed)
+    for i, tmp_rel in P.restart_points(res, b, 3):
+        for later in (False, True):
+            P.restart_after_kill(res, sp, i, tmp_rel, later, concurrent=False)
     # ---- a second session replaying the same samples must not touch finalized files
     before = P.tree_digest(b.top)
     outc, rc, err = P.run_writer(sp, b.top)
@@ -221,7 +226,12 @@ def run(res):
                 "lsdrf and against the model's crash state; all are non-trivial (each follows a distinct operation); "
                 "recordings: gapped 100 samples/file 150+130, continuous 200k samples/file (pwrites inside H5Dwrite), "
                 "thorough adds mid-file start with a gap, f4 with 2 sub-channels, rational rate 400 ms compressed, "
-                "complex, one small write; kills (-9) at the same operations are compared (names, sizes, decoded content) with the snapshots")
+                "complex, one small write; kills (-9) at the same operations are compared (names, sizes, decoded content) with the snapshots; "
+                "restart after a kill: at kill points inside a data file (quick: the first, the last and one random per recording; "
+                "thorough: all) a NEW writer subprocess with the same parameters writes into the file period of the leftover "
+                "tmp.rf@X.h5 and is closed (and: then writes into a later free period, then is closed); raw h5py, DigitalRFReader, "
+                "lsdrf and byte digests of the earlier final files judge the tree; the outcome is compared with the model "
+                "(all refused, leftover removed, no final name appears)")
     names_tmp, names_final = set(), set()
     for sp in recordings(res.tier):
         for c in P.parts_of(sp):
@@ -256,6 +266,8 @@ def replay(res, rp):
     work = common.scratch_dir("c02replay-")
     top = os.path.join(work, "top")
     i = inp.get("crash_before_op")
+    if inp.get("label") == "restart-after-kill":
+        return P.replay_restart(res, rp)
     if inp.get("label") == "second-session":
         P.run_writer(sp, top)
         before = P.tree_digest(top)
